@@ -6,6 +6,7 @@
 import z3
 from pyvc.api import *
 from pyvc import smt
+from pyvc.values import _t
 from pyvc.interp import Opaque, PyExc
 
 SRC = 'petl.io.sources.'
@@ -63,3 +64,46 @@ def memorysource_open(h):
                     what = 'a new %s over exactly the supplied data' % kind
                 ctx.oblige('MemorySource.open(%r): %s; handed out behind the non-closing wrapper, exactly once' % (mode, what), z3.BoolVal(bool(ok)))
             h.explore(body)
+
+
+JS = 'petl.io.json.'
+
+
+@vc('C15.tojson.wiring', functions=[JS + 'tojson', JS + 'tojsonarrays'], props=['C15'],
+    assumptions=['dicts() / data() and _writejson through recording summaries (dicts pads short rows with None: C14 anchors, bounded check)'])
+def tojson_wiring(h):
+    """tojson writes exactly the records of dicts(table) -- every record has EVERY field, short rows padded -- and tojsonarrays the
+    data rows (or all rows with output_header=True); source, prefix, suffix and the encoder arguments go to _writejson unchanged."""
+    def body(ctx):
+        it = h.interp(ctx)
+        calls = []
+        recs = sym_seq(ctx, 'records', 'list', 'Fresh')
+        rows = sym_seq(ctx, 'datarows', 'list', 'Fresh')
+        T = sym_table(ctx, 'T', nmin=0)
+        it.summaries['petl.util.base.dicts'] = lambda interp, args, kw, node: (calls.append(('dicts', list(args), dict(kw))), recs)[1]
+        it.summaries['petl.util.base.data'] = lambda interp, args, kw, node: (calls.append(('data', list(args), dict(kw))), rows)[1]
+        it.summaries[JS + '_writejson'] = lambda interp, args, kw, node: calls.append(('write', list(args), dict(kw)))
+        src, pre, suf, indent = Opaque('arg', 'source'), sym_cell('prefix'), sym_cell('suffix'), sym_cell('indent')
+        it.call(closure_of(it, JS + 'tojson'), [T, src, pre, suf], {'indent': indent})
+        w = [c for c in calls if c[0] == 'write']
+        d = [c for c in calls if c[0] == 'dicts']
+        ok = len(w) == 1 and len(d) == 1 and d[0][1] == [T] and not d[0][2] and w[0][1][0] is src and w[0][1][2] is pre and w[0][1][3] is suf \
+            and set(w[0][2]) == {'indent'} and w[0][2]['indent'] is indent and isinstance(w[0][1][1], Seq)
+        obj = w[0][1][1] if ok else None
+        ctx.oblige('tojson: the object written is the list of the records of dicts(table), all of them, in order; source / prefix / suffix / encoder arguments unchanged',
+                   z3.And(z3.BoolVal(bool(ok)), _t(row_eq(obj, recs))) if ok else z3.BoolVal(False))
+        for oh in (False, True):
+            del calls[:]
+            it.call(closure_of(it, JS + 'tojsonarrays'), [T, src, pre, suf], {'output_header': oh})
+            w = [c for c in calls if c[0] == 'write']
+            ok = len(w) == 1 and w[0][1][0] is src and w[0][1][2] is pre and w[0][1][3] is suf and not w[0][2] and isinstance(w[0][1][1], Seq)
+            obj = w[0][1][1] if ok else None
+            if not ok:
+                ctx.oblige('tojsonarrays: one _writejson call with the caller\'s arguments', z3.BoolVal(False))
+            elif oh:
+                q = smt.fresh_int('q')
+                ctx.oblige('tojsonarrays(output_header=True): every row of the table, header included, in order',
+                           z3.And(obj.len == T.n, z3.ForAll([q], z3.Implies(z3.And(0 <= q, q < T.n), z3.Select(obj.arr, q) == z3.Select(T.rows, q)))))
+            else:
+                ctx.oblige('tojsonarrays: exactly the data rows (data(table)), in order', _t(row_eq(obj, rows)))
+    h.explore(body)
